@@ -298,7 +298,7 @@ class Woven:
         if self._find(callee_pattern + ' (', count=True):
             self.add_arg(callee_pattern, text)
 
-    def desugar_for(self, n, itvar='kw_it', elem='kw_x', next_args='', after_init='', after_next='', after_loop=''):
+    def desugar_for(self, n, itvar='kw_it', elem='kw_x', next_args='', after_init='', after_next='', after_loop='', into_iter=False):
         """T3: `for P in E { B }` -> `{ let mut it = E; loop { let P = match it.next() {..}; B } }`.
         Afterwards the loop keyword is `loop` (loop_contract(n, ..) still addresses it)."""
         kw, o, c = self.loop_body(n)
@@ -322,7 +322,7 @@ class Woven:
         self.repls.append(Repl(self.ct[kw][2], self.ct[in_idx][3],
                                '{ let mut %s = ' % itvar, rule + ':' + ' '.join(
                                    rustlex.texts(rustlex.lex('for ' + pat_text + ' in')))))
-        self._ins(self.ct[o][2], '; ' + after_init + ' loop ')
+        self._ins(self.ct[o][2], ('.into_iter()' if into_iter else '') + '; ' + after_init + ' loop ')
         self._ins(self.ct[o][3],
                   ' let %s = match %s.next(%s) { None => break, Some(%s) => %s }; ' % (pat_text, itvar, next_args, elem, elem) + after_next)
         self._ins(self.ct[c][3], ' ' + after_loop + ' }')
